@@ -111,7 +111,12 @@ func buildTree(par []int, aliasMask, optMask, clash int, sameName bool, exec boo
 		cmds[reqNode-1].Opts[0].Required = "yes"
 	}
 	if posNode > 0 {
-		cmds[posNode-1].Pos = []*decl.PosArg{{Field: "First", Type: decl.TString}, {Field: "Rest", Type: decl.TStrings}}
+		// odd nodes get an int as first positional so that a word can fail to convert
+		ft := decl.TString
+		if posNode%2 == 1 {
+			ft = decl.TInt
+		}
+		cmds[posNode-1].Pos = []*decl.PosArg{{Field: "First", Type: ft}, {Field: "Rest", Type: decl.TStrings}}
 		cmds[posNode-1].PosRequired = "yes"
 	}
 	for i, c := range cmds {
@@ -185,8 +190,9 @@ func init() {
 	c08build = build
 
 	body := func(c *explore.Ctx) {
-		td, key, ok := build(c, false)
-		api := c.Bool()
+		mode := c.Choose(3) // 0 struct tags, 1 API, 2 API with executable (Commander) commands
+		td, key, ok := build(c, mode == 2)
+		api := mode != 0
 		if !ok {
 			c.Skip()
 		}
@@ -270,7 +276,7 @@ func init() {
 		},
 		Rule: "every command tree with <= 4 commands and depth <= 3 (all 32 parent arrays), one counter flag per node; deviations from the plain tree (bounded: 1 quick / 2 thorough): aliases on <= 2 nodes, " +
 			"subcommands-optional on any subset of inner nodes incl. the parser, one node's flag letter clashing with its parent's or grandparent's, a deeper command reusing a top-level command's name; " +
-			"x {struct tags, API} x every sequence of <= 3 (quick) / <= 4 (thorough) tokens over all names, aliases, every node's flag, one long flag and an unknown word; oracle = CLM active chain, scoping (which counter was incremented), " +
+			"x {struct tags, API, API with executable commands} x every sequence of <= 3 (quick) / <= 4 (thorough) tokens over all names, aliases, every node's flag, one long flag and an unknown word; oracle = CLM active chain, scoping (which counter was incremented), " +
 			"remaining arguments and ErrCommandRequired / ErrUnknownCommand",
 		Assumptions:  []string{"deviation-bounded over declaration features, exhaustive over trees and token sequences"},
 		RequiredHits: []string{"model-clean", "chain-depth>=2", "command-fault", "other-fault"},
